@@ -122,6 +122,8 @@ class Ev:
             d = r.get("ctor_of") or r.get("def") or ""
             if last_seg(d) == "None":
                 return NONE
+            if "ctor_of" in r:
+                return ("variant", last_seg(d), ())
             return sym(d)
         if k == "Block":
             return self.block(n, env)
@@ -369,6 +371,12 @@ def definitely_different(a, b):
 def show(v):
     if not isinstance(v, tuple):
         return str(v)
+    if not v:
+        return "()"
+    if isinstance(v[0], tuple):
+        return "(%s)" % ", ".join(show(x) for x in v)
+    if v[0] == "variant":
+        return v[1] + ("(%s)" % ", ".join(show(x) for x in v[2]) if v[2] else "")
     if v[0] == "bool":
         return "true" if v[1] else "false"
     if v[0] == "sym":
